@@ -223,15 +223,22 @@ def one_case(sh, fa, V, rng, case):
         from fastavro.validation import validate_many
 
         batch = [case["datum"], d, case["datum"]]
-        exp = all(RC.conforms(node, x) for x in batch)
-        amb = any(RC.conforms(node, x) != RC.conforms(node, x, loose=True) for x in batch)
+        strict, dtn = rng.random() < 0.3, rng.random() < 0.4
+        kw = {}
+        if strict:
+            kw["strict"] = True
+        if dtn:
+            kw["disable_tuple_notation"] = True
+            sh.count("validate_many_dtn")
+        exp = all(RC.conforms(node, x, strict=strict, tuples=not dtn) for x in batch)
+        amb = any(RC.conforms(node, x, strict=strict, tuples=not dtn) != RC.conforms(node, x, strict=strict, tuples=not dtn, loose=True) for x in batch)
         if not amb:
-            st, got = guard(validate_many, batch, copy.deepcopy(js), raise_errors=False)
+            st, got = guard(validate_many, batch, copy.deepcopy(js), raise_errors=False, **kw)
             if st == "exc" or got is not exp:
                 sh.violation("validate_many-disagrees", "validate_many gave %s, conjunction is %s" % (exc_name(got) if st == "exc" else got, exp),
-                             {"schema": js, "batch": batch})
+                             {"schema": js, "batch": batch, "options": kw})
                 return
-            st, got = guard(validate_many, batch, copy.deepcopy(js), raise_errors=True)
+            st, got = guard(validate_many, batch, copy.deepcopy(js), raise_errors=True, **kw)
             if (exp and (st == "exc" or got is not True)) or (not exp and not (st == "exc" and isinstance(got, V))):
                 sh.violation("validate_many-disagrees", "raise mode gave %s, conjunction is %s" % (exc_name(got) if st == "exc" else got, exp),
                              {"schema": js, "batch": batch})
